@@ -11,8 +11,17 @@ C17 -- JSON and XML serialisation round trips.
    PARSE  JSON texts with duplicate keys -> parse-json($t, map{'duplicates':...})
    J2X    JSON texts -> json-to-xml($t) tree, xml-to-json(json-to-xml($t)) text, json.loads of it
    X2J    generated fn:* element trees (valid and invalid) -> xml-to-json(.)
-   XML    generated XML trees (ElementTree and lxml) -> parse-xml(serialize(.)) : OBSERVED only
-          (fn:deep-equal and an independent structural comparison); no Lean model
+   XML    generated XML trees (ElementTree and lxml; root / inner element with tail / XML declaration / document
+          node with prolog comments+PIs; > 8 KiB) -> parse-xml(serialize(.)) : OBSERVED (fn:deep-equal and an
+          independent structural comparison); the character-level escaping is modelled (XESC)
+   MULTI  one expression calling a function >= 2 times (for $x in ... return f($x)) vs single evaluations;
+          every expression text is compiled once and reused for all inputs, each evaluation is compared
+          with a freshly parsed expression (kind REUSE: replayed two-step history)
+   XESC   strings -> ElementTree._escape_cdata/_escape_attrib, lxml text escaping (library code, modelled),
+          the spec XML reader vs expat, and parse-xml(serialize(<a k=s>s</a>)) on both backends
+   JXE    strings through json-to-xml(..., escape:true) / xml-to-json: text, `escaped` flag, output (model tie)
+   J2XE   whole values with escape:true (observed against the standard)
+   NEG    error exits and option variants of the anchored functions (expected results from F&O / Serialization)
  search    : exhaustive small-scope enumeration (all strings of length <= 3 over the critical alphabet,
              all number shapes with exponents -25..25, all one-level containers of the seed scalars)
  shrink    : greedy structural shrinking of the failing string / value / text
@@ -1253,6 +1262,108 @@ def check_j2xe(run: Run, case) -> list[Disagreement]:
     return []
 
 
+# error paths and option variants of the anchored functions (line tracing, docs/C17.md): expected results by
+# F&O 3.1 17.4/17.5, Serialization 3.1 section 9 -- no model, the expectation is the specification
+def fn_elem(tag, text=None, children=(), **attrib):
+    ET = ep()['ET']
+    el = ET.Element('{%s}%s' % (FN_NS, tag), attrib)
+    el.text = text
+    for c in children:
+        el.append(c)
+    return el
+
+
+def neg_cases(rng) -> list[dict]:
+    c = ep()
+    P, M, A = c['parser'], c['XPathMap'], c['XPathArray']
+    out = []
+
+    def add(name, expr, expected, root=None, **variables):
+        out.append({'kind': 'NEG', 'name': name, 'expr': expr, 'expected': expected, '_root': root, '_vars': variables})
+    ser = 'serialize($v, map{"method":"json"})'
+    add('nan', ser, 'ERR:SERE0020', v=float('nan'))
+    add('inf-in-array', ser, 'ERR:SERE0020', v=A(P, [1, float('-inf')]))
+    add('sequence-of-two', ser, 'ERR:SERE0023', v=[1, 2])
+    add('sibling-maps-same-keys', ser, 's:[{"a":1},{"a":2}]', v=A(P, [M(P, [('a', 1)]), M(P, [('a', 2)])]))
+    add('nested-map-same-key', ser, 's:{"a":{"a":1}}', v=M(P, [('a', M(P, [('a', 1)]))]))
+    add('parse-json-invalid', 'parse-json($t)', 'ERR:FOJS0001', t='[1,')
+    add('parse-json-empty', 'parse-json($t)', 'ERR:FOJS0001', t='')
+    add('parse-json-bad-policy', 'parse-json($t, map{"duplicates":"retain"})', 'ERR:FOJS0005', t='1')
+    add('parse-json-liberal', 'parse-json($t, map{"liberal":true()})', 1, t='1')
+    add('parse-json-empty-seq', 'parse-json(())', [])
+    add('json-to-xml-invalid', 'xml-to-json(json-to-xml($t))', 'ERR:FOJS0001', t='{"a":}')
+    add('json-to-xml-bom', 'xml-to-json(json-to-xml($t))', 's:[1,"a"]', t='\ufeff[1,"a"]')
+    add('json-to-xml-bad-option', 'json-to-xml($t, map{"nonsense":1})', 'ERR:FOJS0005', t='1')
+    add('json-to-xml-validate-retain', 'json-to-xml($t, map{"validate":true(),"duplicates":"retain"})', 'ERR:FOJS0005', t='1')
+    add('json-to-xml-validate', 'xml-to-json(json-to-xml($t, map{"validate":true()}))', 's:{"a":[1,null]}', t='{"a":[1,null]}')
+    add('json-to-xml-validate-dups', 'json-to-xml($t, map{"validate":true()})', 'ERR:FOJS0003', t='{"a":1,"a":2}')
+    x2j = 'xml-to-json(.)'
+    add('x2j-foreign-attribute', x2j, 'ERR:FOJS0006', root=fn_elem('string', 'x', other='1'))
+    add('x2j-namespaced-attribute-ignored', x2j, 's:"x"', root=fn_elem('string', 'x', **{'{urn:x}a': '1'}))
+    add('x2j-bad-escaped-value', x2j, 'ERR:FOJS0006', root=fn_elem('string', 'x', escaped='maybe'))
+    add('x2j-escaped-true', x2j, 's:"a\\nb\\"c\\/"', root=fn_elem('string', 'a\\nb"c/', escaped='true'))
+    add('x2j-escaped-1-kept', x2j, 's:"\\u00e9\\\\x"', root=fn_elem('string', '\\u00e9\\\\x', escaped='1'))
+    add('x2j-escaped-invalid-sequence', x2j, 'ERR:FOJS0007', root=fn_elem('string', 'a\\x', escaped='true'))
+    add('x2j-escaped-short-unicode', x2j, 'ERR:FOJS0007', root=fn_elem('string', '\\u12', escaped='true'))
+    add('x2j-escaped-trailing-backslash', x2j, 'ERR:FOJS0007', root=fn_elem('string', 'a\\', escaped='true'))
+    add('x2j-escaped-key', x2j, 's:{"a\\nb":null}', root=fn_elem('map', None, [fn_elem('null', None, key='a\\nb', **{'escaped-key': 'true'})]))
+    add('x2j-bad-escaped-key-value', x2j, 'ERR:FOJS0006', root=fn_elem('map', None, [fn_elem('null', None, key='a', **{'escaped-key': 'x'})]))
+    add('x2j-array-mixed-content', x2j, 'ERR:FOJS0006', root=fn_elem('array', 'text', [fn_elem('null')]))
+    add('x2j-array-whitespace-ok', x2j, 's:[null]', root=fn_elem('array', '\n ', [fn_elem('null')]))
+    add('x2j-unknown-element', x2j, 'ERR:FOJS0006', root=fn_elem('thing'))
+    add('x2j-number-inf', x2j, 'ERR:FOJS0006', root=fn_elem('number', 'INF'))
+    add('x2j-number-nan', x2j, 'ERR:FOJS0006', root=fn_elem('number', 'NaN'))
+    add('x2j-number-xsd-forms', x2j, 's:[1,0.5,-2]', root=fn_elem('array', None, [fn_elem('number', '1.'), fn_elem('number', '.5'), fn_elem('number', ' -2 ')]))
+    add('x2j-indent-bad-type', 'xml-to-json(., map{"indent":"x"})', 'ERR:XPTY0004', root=fn_elem('null'))
+    add('x2j-indent-true', 'json-to-xml(xml-to-json(., map{"indent":true()})) => xml-to-json()', 's:[1,{"a":null}]',
+        root=fn_elem('array', None, [fn_elem('number', '1'), fn_elem('map', None, [fn_elem('null', None, key='a')])]))
+    add('x2j-other-option-ignored', 'xml-to-json(., map{"other":1})', 's:null', root=fn_elem('null'))
+    add('x2j-empty', 'xml-to-json(())', [])
+    add('parse-xml-not-wellformed', 'parse-xml($t)', 'ERR:FODC0006', t='<a>')
+    add('parse-xml-empty-seq', 'parse-xml(())', [])
+    add('parse-xml-fragment-decl', 'count(parse-xml-fragment($t)/*)', 2, t='<?xml version="1.0" encoding="utf-8"?><a/><b/>')
+    add('parse-xml-fragment-decl-no-encoding', 'parse-xml-fragment($t)', 'ERR:FODC0006', t='<?xml version="1.0"?><a/>')
+    add('parse-xml-fragment-doctype', 'parse-xml-fragment($t)', 'ERR:FODC0006', t='<!DOCTYPE a><a/>')
+    add('parse-xml-fragment-bad', 'parse-xml-fragment($t)', 'ERR:FODC0006', t='<a><b></a>')
+    add('serialize-attribute-node', 'serialize(@x)', 'ERR:SENR0001', root=ep()['ET'].XML('<a x="1"/>'))
+    # random truncations: invalid JSON must be FOJS0001 in both readers
+    for _ in range(25):
+        v = gen_value(rng, 2, ['null', 'bool', 'int', 'float', 'str'])
+        t = write_json(rng, v, loose=False)
+        if len(t) < 2:
+            continue
+        cut = t[:rng.randrange(1, len(t))]
+        try:
+            json.loads(cut)
+            continue
+        except ValueError:
+            pass
+        add('truncated:parse-json', 'parse-json($t)', 'ERR:FOJS0001', t=cut)
+        add('truncated:json-to-xml', 'json-to-xml($t)', 'ERR:FOJS0001', t=cut)
+    return out
+
+
+def check_neg(run: Run, case) -> list[Disagreement]:
+    o = outcome(lambda: xq(case['expr'], root=case['_root'], **case['_vars']))
+    if o[0]:
+        r = o[1]
+        impl = ('s:' + r) if isinstance(r, str) else r
+        if isinstance(r, list):
+            impl = [canon_result(x) for x in r]
+            if len(impl) == 1:
+                impl = impl[0]
+    else:
+        impl = err_text(o[1])
+    run.stats.count('neg:' + case['name'].split(':')[0])
+    exp = case['expected']
+    if impl != exp:
+        return [Disagreement({'kind': 'NEG', 'name': case['name'], 'expr': case['expr'],
+                              'input': {k: canon_result(v) for k, v in case['_vars'].items()}},
+                             json.dumps(impl, default=str), None, spec=json.dumps(exp, default=str),
+                             what='error path / option variant: ' + case['name'], site=case['expr'])]
+    return []
+
+
 # one token, several evaluations inside ONE expression ---------------------------------------------------
 MULTI_EXPR = {
     # sub-kind: (for-expression, single expression, variable, every item must be True?)
@@ -1446,6 +1557,8 @@ def evaluate(run: Run, cases: list[dict]) -> list[list[Disagreement]]:
             results[i] = check_multi(run, c)
         elif k == 'XESC':
             results[i] = check_xesc(run, c, a)
+        elif k == 'NEG':
+            results[i] = check_neg(run, c)
         elif k == 'JXE':
             results[i] = check_jxe(run, c, a)
         elif k == 'J2XE':
@@ -1554,6 +1667,7 @@ def gen_cases(run: Run) -> list[dict]:
                     x = E.Comment(rng.choice([' c ', 'x'])) if rng.random() < 0.5 else E.ProcessingInstruction('p1', 'd')
                     (root.addprevious if rng.random() < 0.6 else root.addnext)(x)
         cases.append(c)
+    cases.extend(neg_cases(rng))
     for _ in range(120 * n):
         cases.append(gen_multi(rng))
     for _ in range(150 * n):
@@ -1574,7 +1688,7 @@ def correspond(run: Run, cases: list[dict]) -> None:
         run.log('chunk', i, len(cases))
         for c, ds in zip(chunk, evaluate(run, chunk)):
             cj = case_json(c)
-            nontrivial = bool(c.get('s') or c.get('t') or c.get('elem') or c.get('v') is not None or c['kind'] in ('XML', 'MULTI'))
+            nontrivial = bool(c.get('s') or c.get('t') or c.get('elem') or c.get('v') is not None or c['kind'] in ('XML', 'MULTI', 'NEG'))
             st.case(cj if c['kind'] not in ('XML', 'MULTI') else {'kind': c['kind'], 'n': st.evaluations}, nontrivial=nontrivial)
             st.count('kind:' + c['kind'])
             if c['kind'] == 'SER':
@@ -1722,7 +1836,9 @@ def body(run: Run) -> int:
                       'nesting <= 5 as XPath variables or constructor expressions, ints to 10^30, doubles incl. subnormal/1e308, '
                       'decimals; PARSE texts with duplicate keys x 4 policies; J2X texts with random whitespace / escape / number '
                       'spellings x 3 policies; X2J element trees incl. invalid shapes; XML trees in ElementTree and lxml with '
-                      'namespaces, attributes, mixed content, comments, PIs). distinct = distinct canonical inputs')
+                      'namespaces, attributes, mixed content, comments, PIs, CR, > 8 KiB, inner elements with tails, declarations, document nodes); '
+                      'MULTI/REUSE token reuse; XESC escaping functions; JXE/J2XE escape:true; NEG error exits and options. '
+                      'distinct = distinct canonical inputs')
     run.prove(['EPV.Props.C17'], ['EPV.Model.Json', 'EPV.Spec.RFC8259'])
     run.log('proofs checked')
     try:
